@@ -15,12 +15,12 @@ CHECKS = {
             "hash injectivity (name = decoded term); independent layer functions in the harness"),
     "C05": (MC, "7.C05", "TLC run of Mast.tla (RootsComplete, RootsFaithful) + persist/JSON round trip/load events of recorded executions validated by TLC against TraceMast.tla",
             "encodings that round-trip (JSON marshaler; registered-type marshalers are exercised by the format family)"),
-    "C09": (MC, "7.C09", "TLC exhaustive run of Mast.tla (ShapeOK, written independently of Canon) + Shape evaluated by TLC on the decoded tree of every persisted root of recorded executions",
-            "the harness's independent decoders of both node formats"),
+    "C09": (MC, "7.C09", "TLC exhaustive run of Mast.tla (ShapeOK, written independently of Canon) + Shape evaluated by TLC on the decoded tree of every persisted root of recorded executions (also roots made by handles an earlier violation tainted, and versions persisted right after an operation failed under an injected fault)",
+            "the harness's independent decoders of both node formats; one recorded finding (size after a failed Insert/grow) matched by its input class"),
     "C13": (MC, "7.C13", "TLC exhaustive run of Mast.tla (Incremental, CleanMeansUnchanged on the set a MakeRoot issued now would write) + recorded Store calls of every MakeRoot validated by TLC (reachability, no-op, range rule, 2*height+2 bound, IsDirty)",
             "ranges are closed (inclusive of bounding ancestor keys) and 'height unchanged' means at every step since the base version (DESIGN 5)"),
-    "C16": (MC, "7.C16", "TLC exhaustive run of Mast.tla (PathReads on the residency-aware transcription) + distinct Load calls of every recorded operation checked by TLC against the stated bounds",
-            "distinct node names are counted; heights are the ones the code reports"),
+    "C16": (MC, "7.C16", "TLC exhaustive run of Mast.tla (PathReads on the residency-aware transcription) + Persist.Load calls of every recorded operation checked by TLC against the stated bounds, on small trees (TraceMast.tla) and on trees of 100-2600 entries probed on freshly opened handles (TracePath.tla)",
+            "Load calls per API call are counted (the property's observation point); heights are the ones the code reports; no cache"),
     "C06": (MC, "7.C06", "TLC enumeration of every ordered pair of trees over the bounded universe on MastDiff.tla (EntryPrefix in every intermediate state of the stepwise machine, EntryDiffExact) + TLC validation of recorded DiffIter/StartDiff/NextEntry runs, early stops and callback failures against ModelDiff (TraceDiff.tla)",
             "the maps of a recorded pair come from the driver's bookkeeping; exhaustive only within the constants"),
     "C07": (MC, "7.C07", "TLC enumeration of every ordered pair on MastDiff.tla (LinksWithin, LinksComplete) + TLC validation of recorded DiffLinks callbacks against the reachable sets of the decoded versions, and a replica store filled with old + added nodes must load the new version",
@@ -33,7 +33,7 @@ CHECKS = {
             "schedules act through the caller-supplied Persist and Marshal only; unrealisable decisions end a branch; exhaustive within the constants"),
     "C12": ("fault_enumeration", "7.C12", "enumeration on the real code of every fallible call position (Persist.Load, KeyCompare, Marshal, Unmarshal; pairs for comparison callbacks) of every operation on prepared trees; each run (result, tree observed through a fault-free view, retry) validated by TLC against TraceFaults.tla, whose normal outcomes come from the map model, ModelDiff and the walk oracle",
             "positions come from a dry run on an identically prepared tree; panics under a fault are counted, not judged; two recorded findings (Delete/shrink, Insert/grow) are matched by their input class"),
-    "C17": ("fault_enumeration", "7.C17", "the real file.Persist.Store run in a child process whose write is cut at every byte offset (killed inside write(2) by RLIMIT_FSIZE, or failing with EFBIG), then load / re-store / load; every run validated by TLC against TraceFile.tla; design level: TLC exhaustive run of FileStore.tla (syscall granularity, crashes, I/O errors, concurrent writers)",
+    "C17": ("fault_enumeration", "7.C17", "the real file.Persist.Store run in a child process whose write is cut at every byte offset (killed inside write(2) by RLIMIT_FSIZE, or failing with EFBIG), then load / re-store / load; the same for MakeRoot of whole trees over the file store (retried in the same process after the error, persisted again after restart, every reachable name compared with its bytes); every run validated by TLC against TraceFile.tla; design level: TLC exhaustive run of FileStore.tla (syscall granularity, crashes, I/O errors, concurrent writers)",
             "a crash is a process killed inside write(2); page-cache / fsync / directory-entry durability are assumptions of FileStore.tla"),
     "C18": (MC, "7.C18", "TLC exhaustive run of Store.tla (3 clients, begin/end steps, injected errors, S3 key mapping; the mis-mapped variants must fail) + recorded Store/Load/concurrent-writer runs on the in-memory, file and S3 backends validated by TLC against TraceStore.tla",
             "S3 is represented by a fake S3Interface recording bucket and key; file errors are injected through a missing base path"),
